@@ -16,11 +16,13 @@ from stone.ir import (
     Void,
     is_struct_type,
     is_boolean_type,
+    is_bytes_type,
     is_list_type,
     is_map_type,
     is_numeric_type,
     is_string_type,
     is_tag_ref,
+    is_timestamp_type,
     is_user_defined_type,
     unwrap_nullable,
 )
@@ -186,7 +188,9 @@ def fmt_default_value(field):
         return '.array({})'.format(field.default)
     elif is_numeric_type(field.data_type):
         return '.number({})'.format(field.default)
-    elif is_string_type(field.data_type):
+    elif (is_string_type(field.data_type) or is_bytes_type(field.data_type) or
+            is_timestamp_type(field.data_type)):
+        # All three are strings in the JSON that the serializer is handed.
         return '.str({})'.format(fmt_obj(field.default))
     elif is_boolean_type(field.data_type):
         if field.default:
